@@ -737,8 +737,8 @@ fn universe() -> Universe {
         // fuzzy-match the full ones ([c] ~ [ce4], [ce,sh] ~ [ce4,sh4])
         keys: vec![vec![ce4], vec![c], vec![ce4, sh4], vec![ce, sh], vec![sh4], vec![ce4, sh4, ce4]],
         texts: vec![
-            vec!["測", "冊", "策", "側", "a"],
-            vec!["測試", "策士", "測士", "側室", "ab"],
+            vec!["測", "冊", "策", "側", "a", "\u{10FFFF}"],
+            vec!["測試", "策士", "測士", "側室", "ab", "\u{10FFFF}b"],
             vec!["測試測", "測試冊", "策士測"],
         ],
     }
